@@ -16,7 +16,7 @@ CHECKS.update({
  "C13": ("exploration", "complete single-field and pairwise boundary lattice over 13 baselines against an independent range predicate, plus Hypothesis random combinations; every point also on objects with a past (parsed-then-re-sent, encoded-then-changed-in-place); send path observed on an in-memory UDP double",
          "Enumerates every single and every pair of fields at boundary candidates (on, next to, far from each bound, None) for every class/version/modulation/NOPE baseline; validate(), gen_msg() and DATAInterface.send_msg() must all agree with refs/ref_valid. Triple-and-higher interactions are sampled only.",
          "Trusts refs/ref_valid.py (transcribed from the property's range list) and the FakeNet socket double.", "3/C13"),
- "C15": ("exploration", "Hypothesis histories (append in chunks) with model list oracle; all skip/count pairs; generated read sequences on one reader; crash-point enumeration of truncation offsets; constructed files with a record header at every offset 2^k-3..2^k+1",
+ "C15": ("exploration", "Hypothesis histories (append in chunks) with model list oracle; all skip/count pairs; generated read / append sequences on one reader (appends also through a second handle); crash-point enumeration of truncation offsets; constructed files with a record header at every offset 2^k-3..2^k+1",
          "Generated capture files compared with the stored list through every read API, every (skip,count) pair, every index, and every truncation offset for files up to 900 octets (header/tail neighbourhoods + sampled body offsets beyond).",
          "Crash = prefix of the byte stream; record layout recomputed with refs/ref_trxd.", "3/C15"),
  "C19": ("exploration", "complete enumeration of all 2715648 frame numbers x 63 deltas (incl. 0) through the unmodified C (gsm_utils.c, firmware sync.c) and Python helpers against a div/mod reference; full-hyperframe +1 walk; generated mixed-delta histories on one running time",
@@ -47,7 +47,7 @@ CHECKS.update({
          "Whether muted bursts consume drop budget is unspecified: both accepted.", "3/C18"),
 })
 CHECKS.update({
- "C09": ("exploration", "Hypothesis-generated handler-duration patterns / start frames / periods / link sets (changed in place at generated ticks) run through the real worker loop under a virtual monotonic clock; absolute-deadline reference model",
+ "C09": ("exploration", "Hypothesis-generated handler-duration patterns / start frames / periods / link sets (changed in place at generated ticks) run through the real worker loop under a virtual monotonic clock; absolute-deadline reference model; one injected-fault scenario with real threads (handler blocked around stop()/start())",
          "The harness owns time (monotonic_ns, Event.wait, Thread are doubles), so tick times are exact integers: every tick's frame number, time, indication payload/recipient/ordering is compared with the model over generated duration patterns incl. overruns, wraps and restarts.",
          "Sending takes no virtual time; P may be 4 614 999..4 615 001 ns but must be constant within a run.", "3/C09"),
  "C14": ("exploration", "Hypothesis raw-input and structured-mutation fuzzing of every receive path ('only ValueError / nothing escapes'), hostile-input sessions with a recovery script checked against TrxModel, an exhaustive boundary lattice of numeric TRXC arguments, coverage-guided atheris campaigns on byte-level targets, and Hypothesis action sequences + a libFuzzer target on the unmodified trx_if.c under ASan/UBSan",
@@ -56,7 +56,7 @@ CHECKS.update({
  "C16": ("exploration", "Hypothesis-generated protocol definitions (programs) instantiated as real codec objects and interpreted by an independent layout interpreter; round-trip, canonical re-encoding, length-exactness, negative tests and re-encoding after an in-place nested change per definition",
          "Recursive generator of definition trees (depth <= 3) with encodable-by-construction values; encoder compared octet for octet with refs/codec_ref, decoder by round trip, plus every short prefix, trailing octets, fixed-value mismatch, unencodable values and over-wide bit-field values.",
          "Only compositions demonstrated by the repository's own users are generated (flexible fields at the tail, exact bit-field partitions).", "3/C16"),
- "C17": ("exploration", "Hypothesis value dicts per PDU class against a hand-transcribed documented layout (v0/v1/v2 incl. batched sub-PDUs), reserved-bit noise, wrong-version rejection, PDU sequences and object-life histories (in-place changes incl. inside batched sub-PDUs), and differential against the message codec's datagrams",
+ "C17": ("exploration", "Hypothesis value dicts per PDU class against a hand-transcribed documented layout (v0/v1/v2 incl. batched sub-PDUs), reserved-bit noise, wrong-version rejection, PDU sequences, object-life histories (in-place changes incl. inside batched sub-PDUs), input-buffer aliasing, and differential against the message codec's datagrams",
          "Generated-input search over all defined modulation codes, NOPE, 0..8 batched sub-PDUs; encoder vs layout octet for octet, round trip, reserved bits, version nibble; every valid v0/v1 datagram of data_msg (legacy on/off) must be accepted with identical fields.",
          "Reserved modulation codes (0b0111, 0b111x) are not asserted; v2 layout reference is a transcription of the TRXDv2 field order.", "3/C17"),
 })
@@ -67,7 +67,7 @@ CHECKS.update({
  "C08": ("exploration", "Hypothesis operation histories against an ASan/UBSan driver around the unmodified tdma_sched.c compared step by step with a 25x8 ring model",
          "Model-based generated-input search over schedule / schedule_set / advance / execute / reset sequences from any ring position; executed callbacks (multiset, parameters, priority order), return codes and overflow behaviour compared after every operation.",
          "Callbacks succeed and do not re-enter; items of an overflowed set / of the current bucket at reset get may-or-may-not latitude.", "3/C08"),
- "C11": ("exploration", "complete enumeration of all tasks x all frames of a 51x26x8 cycle (firmware, recording stub) and all (combination, timeslot) lookups x table rows (trxcon, ASan) compared through a fixed task<->channel correspondence table; continuous multi-task walks across the hyperframe wrap; generated trxcon lookup histories",
+ "C11": ("exploration", "complete enumeration of all tasks x all frames of a 51x26x8 cycle (firmware, recording stub) and all (combination, timeslot) lookups x table rows (trxcon, ASan) compared through a fixed task<->channel correspondence table; continuous multi-task walks across the hyperframe wrap; generated trxcon lookup histories; firmware built twice (signed / unsigned plain char)",
          "Exhaustive over the finite domain: every firmware trigger and every trxcon table row is visited; block starts / per-frame ownership compared per logical channel and direction; burst-id cyclicity, lchan_mask containment, slotmask/config validity and out-of-table reads (ASan) checked for every layout.",
          "The correspondence table and the one-frame DSP latency are harness knowledge; x86-64 clang build; newer libosmocore enumerators from the shim.", "3/C11"),
  "C20": ("exploration", "Hypothesis-generated cell allocations and bitmaps (lengths 0..255, all lengths > 8 enumerated; earlier decode on the same frequency array) against the function sliced verbatim from sysinfo.c in an ASan/UBSan driver with exact-size heap buffers; reference decoder from TS 44.018 10.5.2.21",
